@@ -396,11 +396,22 @@ func (c *Client) sendWithWriter(writer io.Writer, packet []byte) error {
 
 // Loop: Receive data from server
 func (c *Client) recv(keepaliveQuit chan<- struct{}) {
-	defer close(keepaliveQuit)
+	// The keepalive is stopped before the end of the session is reported: event handlers
+	// (a StreamManager) reconnect from within the callback, and the transport is shared
+	// with the next connection.
+	keepaliveStopped := false
+	stopKeepalive := func() {
+		if !keepaliveStopped {
+			keepaliveStopped = true
+			close(keepaliveQuit)
+		}
+	}
+	defer stopKeepalive()
 
 	for {
 		val, err := stanza.NextPacket(c.transport.GetDecoder())
 		if err != nil {
+			stopKeepalive()
 			c.ErrorHandler(err)
 			c.disconnected(c.Session.SMState)
 			return
@@ -410,10 +421,13 @@ func (c *Client) recv(keepaliveQuit chan<- struct{}) {
 		switch packet := val.(type) {
 		case stanza.StreamError:
 			c.router.route(c, val)
-			c.streamError(packet.Error.Local, packet.Text)
+			stopKeepalive()
 			c.ErrorHandler(errors.New("stream error: " + packet.Error.Local))
-			// We don't return here, because we want to wait for the stream close tag from the server, or timeout.
+			// The stream is over: close our side (this waits for the server's stream close tag, or times out),
+			// then tell the application, which may reconnect from the callback.
 			c.Disconnect()
+			c.streamError(packet.Error.Local, packet.Text)
+			return
 		// Process Stream management nonzas
 		case stanza.SMRequest:
 			answer := stanza.SMAnswer{XMLName: xml.Name{
